@@ -9,7 +9,10 @@
    `gamma`, `loggamma`) are *parameters* (`Special α`): the driver supplies series implementations on `Float`
    (bottom of this file), `GSV/Lemmas/Spectral.lean` supplies the real ones (`erf x = 2/√π ∫₀ˣ e^{-t²}`).
    `sps.gamma` at the half-integers the code uses (`Γ((d+1)/2)`, `Γ(d/2+1)`) is the recursion `gammaHalf`.
-   Where the code offers nothing (`return None`) the model returns `PpfOut.notOffered` / `none`. -/
+   Where the code offers nothing (`return None`) the model returns `PpfOut.notOffered` / `none`.
+   Also: the two-scale combination of the truncated power law densities / correlations (`tplMix`, `tplDensity`,
+   `tplCorrelation`) and the state machine of the settings a spectral evaluation reads (`Settings`, `Op`, `step`,
+   `construct`: dimension, lengths, shape, `hankel_kw` and the transform object `_sft` built from them). -/
 import GSV.Proto
 open Lean GSV GSV.Proto GSV.Transc
 namespace GSV.Model.Spectral
@@ -178,6 +181,129 @@ def analyticDensity (cls : String) : Bool :=
 /-- shape of `model.dist_func`: (pdf, cdf-or-None, ppf-or-None) -/
 def distFuncShape (cls : String) (d : Nat) : Bool × Bool × Bool := (true, hasCdf cls d, hasPpf cls d)
 
+/-! ### truncated power law models: two-scale combination of a single-scale density / correlation
+
+`tools/special.py: tpl_exp_spec_dens / tpl_gau_spec_dens` and `TPLGaussian / TPLExponential.correlation`.  The
+single-scale functions (`hyp2f1`, incomplete gamma) are parameters `one L k`, `corOne L r`; what is modelled is
+WHICH lengths are combined (`len_rescaled`, `len_low_rescaled`, `len_up_rescaled`) and with which weights. -/
+
+/-- `TPLCovModel.len_low_rescaled = len_low / rescale` -/
+def lenLowRescaled (lenLow rescale : α) : α := lenLow / rescale
+
+/-- `TPLCovModel.len_up_rescaled = (len_low + len_scale) / rescale` -/
+def lenUpRescaled (len lenLow rescale : α) : α := (lenLow + len) / rescale
+
+/-- `tpl_exp_spec_dens(k, dim, len_scale = ℓ, hurst = H, len_low = ℓlow)` (same text as `tpl_gau_spec_dens`) with the
+    single-scale branch `one L k` (the `np.isclose(len_low, 0)` case of the same function) -/
+def tplMix (one : α → α → α) (H ℓ ℓlow k : α) : α :=
+  if isclose0 ℓlow then one ℓ k
+  else
+    let facUp := rpow (ℓ + ℓlow) (((2:Nat):α) * H)
+    let specUp := one (ℓ + ℓlow) k
+    let facLow := rpow ℓlow (((2:Nat):α) * H)
+    let specLow := one ℓlow k
+    (facUp * specUp - facLow * specLow) / (facUp - facLow)
+
+/-- `TPLGaussian / TPLExponential.spectral_density`: the arguments handed over are `len_rescaled` and
+    `len_low_rescaled` -/
+def tplDensity (one : α → α → α) (H len lenLow rescale k : α) : α :=
+  tplMix one H (lenRescaled len rescale) (lenLowRescaled lenLow rescale) k
+
+/-- `TPLGaussian / TPLExponential.correlation` with the single-scale correlation `corOne L r`
+    (`tplstable_cor(r, L, hurst, alpha)`) -/
+def tplCorrelation (corOne : α → α → α) (H len lenLow rescale r : α) : α :=
+  if isclose0 (lenLowRescaled lenLow rescale) then corOne (lenRescaled len rescale) r
+  else
+    (rpow (lenUpRescaled len lenLow rescale) (((2:Nat):α) * H) * corOne (lenUpRescaled len lenLow rescale) r
+      - rpow (lenLowRescaled lenLow rescale) (((2:Nat):α) * H) * corOne (lenLowRescaled lenLow rescale) r)
+    / (rpow (lenUpRescaled len lenLow rescale) (((2:Nat):α) * H)
+      - rpow (lenLowRescaled lenLow rescale) (((2:Nat):α) * H))
+
+/-! ### the settings a spectral evaluation reads, changed in place
+
+`CovModel.__init__`, the setters `dim` (`tools.set_dim`), `len_scale`, `rescale`, `var`, optional arguments,
+`hankel_kw`, and the transform object `model._sft` that `set_dim` and the `hankel_kw` setter (re)build. -/
+
+/-- the keyword arguments of `hankel.SymmetricFourierTransform` kept in `model.hankel_kw` -/
+structure HankelKw (α : Type) where
+  a : α
+  b : α
+  N : Nat
+  h : α
+  alt : Bool
+
+/-- `base.HANKEL_DEFAULT` -/
+def hankelDefault : HankelKw α := ⟨-((1:Nat):α), ((1:Nat):α), 200, (0.001:α), true⟩
+
+/-- a (possibly partial) dictionary given as `hankel_kw` -/
+structure HankelUpd (α : Type) where
+  a : Option α
+  b : Option α
+  N : Option Nat
+  h : Option α
+  alt : Option Bool
+
+/-- `dict.update` -/
+def HankelKw.update (kw : HankelKw α) (u : HankelUpd α) : HankelKw α :=
+  ⟨u.a.getD kw.a, u.b.getD kw.b, u.N.getD kw.N, u.h.getD kw.h, u.alt.getD kw.alt⟩
+
+/-- a complete dictionary -/
+def HankelKw.full (kw : HankelKw α) : HankelUpd α := ⟨some kw.a, some kw.b, some kw.N, some kw.h, some kw.alt⟩
+
+/-- the object in `model._sft`: the dimension and the settings it was BUILT with -/
+structure Sft (α : Type) where
+  ndim : Nat
+  kw : HankelKw α
+
+/-- `SFT(ndim=model.dim, **model.hankel_kw)` -/
+structure Settings (α : Type) where
+  dim : Nat
+  len : α
+  rescale : α
+  var : α
+  /-- the optional shape argument (`nu`, `alpha`, `hurst`) -/
+  nu : α
+  kw : HankelKw α
+  sft : Sft α
+
+/-- in-place changes through the public setters -/
+inductive Op (α : Type) where
+  | setDim (d : Nat)
+  | setLen (x : α)
+  | setRescale (x : α)
+  | setVar (x : α)
+  | setNu (x : α)
+  /-- `model.hankel_kw = None` (reset to the defaults) or a dictionary merged over the CURRENT settings -/
+  | setHankel (u : Option (HankelUpd α))
+
+/-- one setter call.  `set_dim` raises for `dim < 1` before anything is changed (state kept); otherwise it stores the
+    dimension and rebuilds the transform for it; the `hankel_kw` setter rebuilds it for the current dimension -/
+def step (s : Settings α) : Op α → Settings α
+  | .setDim d => if d < 1 then s else { s with dim := d, sft := ⟨d, s.kw⟩ }
+  | .setLen x => { s with len := x }
+  | .setRescale x => { s with rescale := fabs x }
+  | .setVar x => { s with var := x }
+  | .setNu x => { s with nu := x }
+  | .setHankel none => { s with kw := hankelDefault, sft := ⟨s.dim, hankelDefault⟩ }
+  | .setHankel (some u) => { s with kw := s.kw.update u, sft := ⟨s.dim, s.kw.update u⟩ }
+
+def run (s : Settings α) (ops : List (Op α)) : Settings α := ops.foldl step s
+
+/-- `CovModel.__init__` (valid `dim ≥ 1`): `hankel_kw` first, then the dimension (which builds the transform) -/
+def construct (dim : Nat) (len rescale var nu : α) (hk : Option (HankelUpd α)) : Settings α :=
+  let kw : HankelKw α := match hk with
+    | none => hankelDefault
+    | some u => (hankelDefault : HankelKw α).update u
+  ⟨dim, len, fabs rescale, var, nu, kw, ⟨dim, kw⟩⟩
+
+/-- `CovModel.spectral_density` (numerical default): `self._sft.transform(self.correlation, |k|)`, where
+    `T ndim kw f k` stands for `SymmetricFourierTransform(ndim, **kw).transform(f, k)` -/
+def defaultDensity (T : Nat → HankelKw α → (α → α) → α → α) (cor : α → α) (s : Settings α) (k : α) : α :=
+  T s.sft.ndim s.sft.kw (correlation cor (lenRescaled s.len s.rescale)) (fabs k)
+
+/-- `Gaussian.spectral_density` of a model object in state `s` -/
+def gauDensityOf (s : Settings α) (k : α) : α := gauDensity s.dim (lenRescaled s.len s.rescale) k
+
 /-! ### `Float` special functions (driver side only) -/
 
 namespace F
@@ -326,6 +452,67 @@ def ops (op : String) (j : Json) : Option (Except String Json) :=
       | "lgamma" => return fl (xs.toList.map F.lgamma)
       | "gammaHalf" => return fl (xs.toList.map fun x => (gammaHalf x.toUInt64.toNat : Float))
       | _ => throw s!"spec_special: unknown {f}")
+  | "spec_tpl_lengths" => some (do
+      let len ← getFloat j "len"
+      let lenLow ← getFloat j "len_low"
+      let resc ← getFloat j "rescale"
+      let ℓ := lenRescaled len resc
+      let ℓlow := lenLowRescaled lenLow resc
+      return fl [ℓ, ℓlow, ℓ + ℓlow, if isclose0 ℓlow then 1.0 else 0.0, lenUpRescaled len lenLow resc])
+  | "spec_tpl_mix" => some (do
+      -- single-scale values supplied by the caller: `base` at `len_rescaled`, `up` at `len_rescaled + len_low_rescaled`,
+      -- `low` at `len_low_rescaled` (one entry per wave number)
+      let len ← getFloat j "len"
+      let lenLow ← getFloat j "len_low"
+      let resc ← getFloat j "rescale"
+      let H ← getFloat j "hurst"
+      let base ← getFloats j "base"
+      let up ← getFloats j "up"
+      let low ← getFloats j "low"
+      let ℓ := lenRescaled len resc
+      let ℓlow := lenLowRescaled lenLow resc
+      let n := base.size
+      if up.size != n || low.size != n then throw "spec_tpl_mix: sizes differ"
+      return fl ((List.range n).map fun i =>
+        let one : Float → Float → Float := fun L _ =>
+          if L == ℓ + ℓlow then up[i]! else if L == ℓlow then low[i]! else base[i]!
+        tplDensity one H len lenLow resc 0.0))
+  | "spec_hist" => some (do
+      -- a construct / change in place history; returns one row per state (initial state first):
+      -- [dim, len, rescale, var, nu, kw.a, kw.b, kw.N, kw.h, kw.alt, sft.ndim, sft.a, sft.b, sft.N, sft.h, sft.alt]
+      let dim ← getNat j "dim"
+      let len ← getFloat j "len"
+      let resc ← getFloat j "rescale"
+      let var ← getFloat j "var"
+      let ν ← getFloat j "nu"
+      let kinds ← getNats j "kinds"
+      let vals ← getFloats j "vals"
+      let masks ← getNats j "masks"      -- 5 entries per state-changing item (item 0 = constructor argument)
+      let hvals ← getFloats j "hvals"
+      let hasInit ← getBool j "init_hankel"
+      let upd : Nat → HankelUpd Float := fun i =>
+        let g : Nat → Option Float := fun c => if masks[5 * i + c]! == 1 then some hvals[5 * i + c]! else none
+        ⟨g 0, g 1, (g 2).map (fun x => x.toUInt64.toNat), g 3, (g 4).map (fun x => x != 0.0)⟩
+      let s0 := construct dim len resc var ν (if hasInit then some (upd 0) else none)
+      let row : Settings Float → List Float := fun s =>
+        let kwl : HankelKw Float → List Float := fun kw =>
+          [kw.a, kw.b, kw.N.toFloat, kw.h, if kw.alt then 1.0 else 0.0]
+        [s.dim.toFloat, s.len, s.rescale, s.var, s.nu] ++ kwl s.kw ++ [s.sft.ndim.toFloat] ++ kwl s.sft.kw
+      let mut s := s0
+      let mut rows := [row s0]
+      for i in [0:kinds.size] do
+        let v := vals[i]!
+        let op : Op Float := match kinds[i]! with
+          | 0 => .setDim v.toUInt64.toNat
+          | 1 => .setLen v
+          | 2 => .setRescale v
+          | 3 => .setVar v
+          | 4 => .setNu v
+          | 5 => .setHankel none
+          | _ => .setHankel (some (upd (i + 1)))
+        s := step s op
+        rows := rows ++ [row s]
+      return fl2 rows)
   | _ => none
 
 end GSV.Model.Spectral
